@@ -477,23 +477,26 @@ def run_pipe(case, model):
             f.write('#!/bin/sh\ncat > /dev/null\ncase "$1" in\n')
             for i, o in enumerate(case['outs']):
                 body = {'exit0': 'exit 0', 'fail5': 'echo "5.1.1 no such user"; exit 1', 'fail': 'echo "maildrop: try later" >&2; exit 1',
-                        'fail75': 'echo "maildrop: temp"; exit 75', 'timeout': 'sleep 5; exit 0',
+                        'fail75': 'echo "maildrop: temp"; exit 75', 'timeout': 'sleep 9; exit 0',
                         'killed': 'kill -9 $$; sleep 5'}[o]          # dies from a signal: Popen.returncode is negative
                 f.write('  *rcpt%d@*) %s ;;\n' % (i, body))
             f.write('  *) exit 0 ;;\nesac\n')
         os.chmod(prog, os.stat(prog).st_mode | stat.S_IEXEC)
         relay_kind = case['relay']
+        # the stub programs answer at once; the relay's timeout only has to tell them from the one that sleeps. On a busy machine
+        # starting a shell takes its time: a generous limit where no program of the case sleeps, a moderate one where one does
+        pipe_timeout = 1.5 if 'timeout' in case['outs'] else 6.0
         if relay_kind in ('pipe', 'pipe-single'):
-            relay = PipeRelay([prog, '{recipient}'], timeout=0.5)
+            relay = PipeRelay([prog, '{recipient}'], timeout=pipe_timeout)
             relay.per_recipient = relay_kind == 'pipe'
         elif relay_kind == 'maildrop':
-            relay = MaildropRelay(path=prog, timeout=0.5, extra_args=['{recipient}'])
+            relay = MaildropRelay(path=prog, timeout=pipe_timeout, extra_args=['{recipient}'])
             relay.args = [prog, '{recipient}']
         else:
-            relay = DovecotLdaRelay(path=prog, timeout=0.5)
+            relay = DovecotLdaRelay(path=prog, timeout=pipe_timeout)
             relay.args = [prog, '{recipient}']
         env = make_env(len(case['outs']))
-        res = run_attempt(relay, env, watchdog=8.0)
+        res = run_attempt(relay, env, watchdog=20.0)
     finally:
         import shutil
         shutil.rmtree(d, ignore_errors=True)
